@@ -380,7 +380,8 @@ def snapshot(root):
     nodes, leaves = {}, {}
     for p, n in walk_nodes(root):
         try:
-            names = list(n.names) if n._has_names() else None
+            # a lazy stack's names are derived from its members' (and memoised): only the members' own names are state
+            names = None if is_lazy(n) else (list(n.names) if n._has_names() else None)
         except Exception as e:  # noqa: BLE001
             names = "raise:" + type(e).__name__
         nodes["/".join(p)] = {"bs": list(n.batch_size), "names": names, "dev": str(n.device), "keys": [k for k, _ in children(n)],
